@@ -29,6 +29,8 @@ CLAIMS = {
          "Sampling of contents/encoders/prices (incl. 0, 1, 2^64-1 and threshold-aimed prices). TunnelSignatureOrder is not registered as a user-decodable Content, so only the transition kind exercises the IsInternal barrier. Injectivity over all inputs is sampled, not proved."),
  "C13": ("§5/C13", "Ledger model of payers, data-source treasuries, signing members and the bandtss escrow compared with bank balances after every block; fee limits drawn at cost-1 / cost / cost+1 / missing denom, poor payers; accept => exact movement within the limit, fee-rejection => model cost really exceeds the limit; payouts exactly once to the assigned members of the final attempt of the current-group signing, nothing for FALLEN or incoming-group signatures; escrow covers unfinished paid signings. Profiles: oracle with fee-bearing data sources, TSS with retries, governance transitions.",
          "Sampling. Inflation and community tax are switched off in these profiles so that only the services move coins. Rejected transactions are atomic by the SDK's transaction semantics; the end-block creations (oracle result signing) are checked through the ledger. IBC relay-paid requests are not generated."),
+ "C14": ("§5/C14", "On every block: total supply changes only by the minted amount and the distribution module account covers community pool + outstanding rewards. On quiet blocks (no transactions, no end-block bank movement) the whole state difference is the begin-block allocation and is recomputed exactly from the pre-state: oracle share to oracle-active voters by voting power with the community-tax part and the remainder to the proposer, signing-member share of the remainder split equally among active members with a queued nonce with its remainder to the community pool, then the SDK's distribution of the rest; compared with every validator's outstanding rewards, every member's balance, the community pool and the emptied fee collector. Fee pools in several denominations (0,1,2,...,large), percentages 0/1/33/50/70/100, tax 0..1, absent and nil voters, varying eligibility.",
+         "Sampling of amount/percentage vectors. The minted amount is read from the mint event (SDK minter trusted); the SDK's own distribution formula is modelled only to isolate the band-specific shares. Percentages above 100 used to halt the chain and are now rejected (see known_findings.json)."),
  "C15": ("§5/C15", "Model of activation history, accepted reports and price submissions: every observed deactivation must be justified by a genuine miss (expired request that chose the validator, lacks its report and was made after its activation; or a current feed without a sufficiently recent price outside both grace periods); accepted MsgActivate only when inactive and past the penalty; on-chain activity flag equals the activation/deactivation history. Block times are aimed at every boundary (price time + interval, grace ends, penalty ends).",
          "Only-if direction, as the statement is phrased; the block-height fallback only makes the chain more lenient and is not mirrored."),
  "C16": ("§5/C16", "Stake model with boundary-aimed amounts (exactly the unlocked slack, one more): accepted undelegation/unstake must leave total power >= the largest lock over active vaults, a refusal for 'locked' must be backed by an active lock, rejected attempts change nothing (stake, delegation and lock records equal the model), module-level SetLockedPower/DeactivateVault applied between blocks on every replica, vault never reactivates, restake module balance == sum of stake records, by-power lock index == locks (raw store iteration).",
